@@ -177,3 +177,13 @@ func JWKSDoc(name string) string {
 	}
 	return string(b)
 }
+
+// FetchedKeySet is (symbolically) the key set the modelled jwk.Cache returns for a registered URL.
+// The native twins of harnesses that use it run the real cache against a real endpoint instead.
+func FetchedKeySet(uri string) jwk.Set { return nil }
+
+// JWKCacheOption reports (symbolically) what the code under test handed to the modelled jwk.Cache:
+// for uri == "" the options of jwk.NewCache, otherwise those of Cache.Register(uri, ...). name is
+// the option constructor without "With" (RefreshInterval, MinRefreshInterval, RefreshWindow,
+// HTTPClient, ErrSink); the duration is meaningful for the duration-valued ones.
+func JWKCacheOption(cache *jwk.Cache, uri, name string) (time.Duration, bool) { return 0, false }
